@@ -2,4 +2,3 @@ package main
 
 func checkC12(c *checkCtx) int { c.infraf("C12 engine not built yet"); return 2 }
 func checkC13(c *checkCtx) int { c.infraf("C13 engine not built yet"); return 2 }
-func checkC14(c *checkCtx) int { c.infraf("C14 engine not built yet"); return 2 }
